@@ -72,7 +72,9 @@ def audit(pid, cfg, update=False):
     os.makedirs(os.path.join(LEAN, "GrafeoModel", "Audit"), exist_ok=True)
     audit_file = os.path.join(LEAN, "GrafeoModel", "Audit", pid + ".lean")
     with open(audit_file, "w") as f:
-        f.write("import %s\nset_option pp.width 1000000\n" % cfg["lean_module"])
+        for mod in [cfg["lean_module"]] + cfg.get("extra_modules", []):
+            f.write("import %s\n" % mod)
+        f.write("set_option pp.width 1000000\n")
         for o in obs:
             f.write('#eval IO.println "@@ %s"\n#check @%s\n#print axioms %s\n' % (o["name"], o["name"], o["name"]))
     rc, out, err = run(["lake", "env", "lean", audit_file], cwd=LEAN, timeout=1800)
@@ -417,7 +419,7 @@ def main():
         notes.append("constants: " + msg)
 
     # 2. proofs
-    proof_ok, blog = lake_build([cfg["lean_module"], "gdriver"])
+    proof_ok, blog = lake_build([cfg["lean_module"]] + cfg.get("extra_modules", []) + ["gdriver"])
     broken_theorems = []
     if not proof_ok:
         log(blog[-6000:])
